@@ -28,6 +28,8 @@ Calls == {
   [name |-> "resolveA",  root |-> "none", uses |-> {"d2"}],
   [name |-> "withRootA", root |-> "A", uses |-> {"d1"}],
   [name |-> "withRootB", root |-> "B", uses |-> {"d1", "d3"}],
+  [name |-> "nobaseA",   root |-> "none", uses |-> {"d1"}],
+  [name |-> "metaref",   root |-> "meta", uses |-> {}],
   [name |-> "meta",      root |-> "meta", uses |-> {}] }
 
 VARIABLES world, pkgCache, callCache, results, n
